@@ -85,6 +85,9 @@ func mulB(thorough bool) []uint32 {
 var mulBCache = map[bool][]uint32{}
 
 func init() {
+	if !h.Seams() { // mulB reads tink's zeta table through the export shim; only the (skipped) seam sections use it
+		return
+	}
 	mulBCache[false] = mulB(false)
 	mulBCache[true] = mulB(true)
 }
